@@ -70,8 +70,11 @@ def run(prog, rep, tier, repo):
                 (problems if ex.definite else undec).append(str(ex))
         # length assert
         conds = [('bin', 'Eq', ('len', x), ('len', y), 'usize'), ('bin', 'Eq', ('len', y), ('len', x), 'usize')]
-        mm = [c for c in f.calls() if c.path and c.path.endswith('utils::matmul')]
-        if not mm or not all(any(cn in conds and v is True for cn, v in f.guards().get(c.bb, [])) for c in mm):
+        mm = [c for c in f.calls() if c.path and (c.path.endswith('utils::matmul') or (
+            c.path in pdb.bodies and c.path.startswith(P) and any(k_.endswith('utils::matmul') for k_ in prog.closure(c.path))))]
+        if not mm:
+            undec.append('no product call found in fit (directly or in a helper of the regressor)')
+        elif not all(any(cn in conds and v is True for cn, v in f.guards().get(c.bb, [])) for c in mm):
             problems.append('assert_eq!(x.len(), y.len()) does not dominate the products')
         if undec and not problems:
             rep.undecided('normal-equations', key, '; '.join(undec), site_of(f.body), proof=False)
